@@ -76,6 +76,9 @@ func faultKinds() []faultKind {
 		{name: "transport-error-after", signal: true, transport: "ErrAfter"},
 		{name: "status-500-with-body", signal: true, transport: "Status", status: 500, body: `{"errors":[{"message":"internal"}]}`},
 		{name: "status-404-empty", signal: true, transport: "Status", status: 404, body: ``},
+		{name: "status-502-with-valid-answer-body", signal: true, transport: "StatusKeepBody", status: 502},
+		{name: "status-404-with-valid-answer-body", signal: true, transport: "StatusKeepBody", status: 404},
+		{name: "status-304-with-valid-answer-body", signal: true, transport: "StatusKeepBody", status: 304},
 		{name: "body-read-error", signal: true, transport: "ReadErr"},
 		{name: "not-json", signal: true, whole: func([]byte) []byte { return []byte("<html>bad gateway</html>") }},
 		{name: "json-not-array", signal: true, whole: func(b []byte) []byte { return []byte(`{"data":{"x":1}}`) }},
@@ -268,6 +271,8 @@ func scenFLT(s *sched.Sim, cfg Config, res *Result) {
 			switch k.transport {
 			case "Status":
 				return &simnet.Fault{Kind: "Status", Status: k.status, Body: []byte(k.body)}
+			case "StatusKeepBody":
+				return &simnet.Fault{Kind: "StatusKeepBody", Status: k.status}
 			case "ReadErr":
 				return &simnet.Fault{Kind: "ReadErr", At: 5}
 			}
